@@ -8,8 +8,9 @@ IsEvent(e) == l <= TraceLen /\ Ev.e = e /\ l' = l + 1 /\ UNCHANGED n
 TPool == IsEvent("Pool") /\ PoolOK(Ev)
 TLookup == IsEvent("Lookup") /\ LookupOK(Ev)
 TRange == IsEvent("Range") /\ RangeOK(Ev)
+TTold == IsEvent("Told") /\ ToldOK(Ev)
 TReset == IsEvent("Reset")
-TNext == TPool \/ TLookup \/ TRange \/ TReset
+TNext == TPool \/ TLookup \/ TRange \/ TTold \/ TReset
 TraceSpec == TInit /\ [][TNext]_tvars
 TraceAccepted ==
     LET d == TLCGet("stats").diameter IN
